@@ -58,6 +58,9 @@ def gen_program(rng, n):
         elif k < 0.22:
             prog.append(("build", rng.choice(["http", "https", ""]), rng.choice(["h", "É.com", "::1", "", "a^b", "a b"]), rng.choice([None, 80, 8080]), rng.choice(["", "/a b", "/x/../y"]),
                          rng.choice([None, {"a": "1"}, {"k": ["1", "2"]}, [("a", "b c")]])))
+        elif k < 0.27:
+            # URL.build(..., encoded=True) with ports that compare EQUAL (1 / True / 1.0): the argument checks must not be skipped by a cache hit
+            prog.append(("build_enc", rng.choice(["http", "x"]), rng.choice(["h", "k"]), rng.choice([1, True, 1.0, 8080, 8080.0, 0, False, None])))
         elif k < 0.62:
             name = rng.choice(["with_scheme", "with_user", "with_password", "with_host", "with_port", "with_path", "with_query", "extend_query", "update_query",
                                "without_query_params", "with_fragment", "with_name", "with_suffix", "truediv", "joinpath", "parent", "origin", "relative", "join"])
@@ -117,6 +120,11 @@ def run_program(prog, mode, check_frames):
                 if step[5] is not None:
                     kw["query"] = arg_obj = copy.deepcopy(step[5])
                     arg_before = copy.deepcopy(arg_obj)
+                res = URL.build(**kw)
+            elif kind == "build_enc":
+                kw = dict(scheme=step[1], host=step[2], encoded=True)
+                if step[3] is not None:
+                    kw["port"] = step[3]
                 res = URL.build(**kw)
             elif kind == "mod":
                 if not pool:
